@@ -220,6 +220,13 @@ def gen_pairs(name, rng, n):
         if rng.random() < 0.5:
             a, b = b, a
         pairs.append((a, b))
+        if r < 0.38 and rng.random() < 0.5:
+            # a burst: the same two versions again with one numeric field of one side moved (a routine that remembers
+            # an answer under a key that leaves that field out gives the old answer)
+            a2 = bump_number(a, rng)
+            pairs.append((a2, b))
+            pairs.append((a, bump_number(b, rng)))
+            pairs.append((b, a2))
     pairs = [(a, b) for a, b in pairs if all(ord(c) < 128 for c in a + b)]
     return pairs
 
